@@ -212,6 +212,34 @@ def o_pipeline(case):
         except Exception:  # noqa: BLE001
             pass
     cfg = parse_config_dict(raw)
+    how = case.get("derive")
+    if how and case.get("before") is not None and not case.get("explicit_xy") and "cfg0" in dir():
+        # the configuration under test DERIVED from the one that has just been run, the way a parameter sweep does it: the differing entries
+        # assigned on the existing object, or dataclasses.replace() on its sections (the repository's own convergence scripts).  Fields
+        # whose change re-derives other fields in __post_init__ (reference origin, towers) are left to freshly parsed configurations.
+        import dataclasses
+        try:
+            same_geo = (cfg0.domain.ref_lat, cfg0.domain.ref_lon) == (cfg.domain.ref_lat, cfg.domain.ref_lon) and \
+                [dataclasses.astuple(t) for t in cfg0.towers] == [dataclasses.astuple(t) for t in cfg.towers]
+        except Exception:  # noqa: BLE001
+            same_geo = False
+        if same_geo:
+            secs = {}
+            for sec in ("domain", "met", "solver", "parallel"):
+                a0, a1 = getattr(cfg0, sec, None), getattr(cfg, sec, None)
+                if a0 is None or a1 is None or not dataclasses.is_dataclass(a0):
+                    continue
+                # only entries a user writes in that section (the keys of the two dictionaries): a sweep passes `nz=...`, not whatever else
+                # the object happens to carry
+                named = set(raw.get(sec) or {}) | set(case["before"].get(sec) or {})
+                diff = {f.name: getattr(a1, f.name) for f in dataclasses.fields(a1)
+                        if f.init and f.name in named and getattr(a0, f.name) != getattr(a1, f.name)}
+                if how == "assign":
+                    for k_, v_ in diff.items():
+                        setattr(a0, k_, v_)
+                else:
+                    secs[sec] = dataclasses.replace(a0, **diff)
+            cfg = cfg0 if how == "assign" else dataclasses.replace(cfg0, **secs)
     if case.get("explicit_xy"):
         # the configuration built from dataclasses, its towers carrying lat/lon AND explicitly written local coordinates: whatever the
         # configuration makes of them, the single run uses the tower's (x, y) of the configuration it is handed
@@ -287,7 +315,7 @@ def sibling(rng, raw, which=None):
     import copy
     r = copy.deepcopy(raw)
     d, sol = r["domain"], r["solver"]
-    k = int(rng.integers(9)) if which is None else which
+    k = int(rng.integers(11)) if which is None else which
     if k == 0:
         sol["src_loc"] = None if sol.get("src_loc") is not None else [0.4 * d["xmax"], 0.6 * d["ymax"]]
     elif k == 1:
@@ -305,6 +333,12 @@ def sibling(rng, raw, which=None):
         sol["footprint"] = not sol["footprint"]
     elif k == 7:
         d["xmax"] = d["xmax"] * 1.25
+    elif k == 9:
+        d["nz"] = d["nz"] + int(rng.choice([1, 2]))          # the vertical resolution (the default output level is node nz)
+    elif k == 10:
+        d["full_output"] = not d.get("full_output", False)
+        if d.get("output_levels"):
+            d.pop("output_levels")
     else:
         r["towers"][0]["z_m"] = r["towers"][0]["z_m"] + 0.5
     return r
@@ -373,14 +407,15 @@ def run(rng, tier, deep):
         tw = int(rng.integers(len(raw["towers"])))
         before, fseed = None, (int(rng.integers(1 << 30)) if rng.random() < 0.3 else None)
         if rng.random() < 0.6:
-            which = int(rng.integers(9))
+            which = int(rng.integers(11))
             if which in (0, 1):
                 # the earlier run differs in the configured SOURCE: only a dispersion run with the configured source can see it
                 raw["solver"]["footprint"] = False
                 fseed = None
             before = sibling(rng, raw, which)
         exy = [float(rng.uniform(10, 0.8 * raw["domain"]["xmax"])), float(rng.uniform(10, 0.8 * raw["domain"]["ymax"]))] if rng.random() < 0.25 else None
-        run_oracle(st, o_pipeline, dict(raw=raw, tower=tw, step=int(rng.integers(nstep)), flux_seed=fseed, before=before, explicit_xy=exy))
+        run_oracle(st, o_pipeline, dict(raw=raw, tower=tw, step=int(rng.integers(nstep)), flux_seed=fseed, before=before, explicit_xy=exy,
+                                        derive=[None, "assign", "replace"][int(rng.integers(3))] if before is not None else None))
         run_oracle(st, o_yaml, dict(raw=raw))
     return finish(st, "configurations over closures x precisions x footprint/dispersion x default/explicit halo and modes x output_levels / empty list / "
                   "full_output / default level x z0-only and ustar forcing x scalar and list forcing x 1-3 towers with different heights x every time index "
